@@ -570,6 +570,10 @@ def eval_case(case, tier=None):
         return eval_history(case, tier)
     if case.get("route") == "calc-history":
         return eval_calc_history(case, tier)
+    if case.get("route") == "recouple":
+        return eval_recouple(case, tier)
+    if case.get("route") == "pair-aligned":
+        return eval_pair_aligned(case, tier)
     spec = spec_of(case)
     viol = {}
     dev = {}
@@ -1103,6 +1107,172 @@ def eval_history(case, tier):
 
 
 # ------------------------------------------------------------------------------------------
+# the SYSTEM changes under one calculator: couplings re-set + Aggregate.rebuild() between two
+# calculate() calls of the same AbsSpectrumCalculator object
+# ------------------------------------------------------------------------------------------
+RECOUPLE_PATTERNS = {2: ["none", "chain60", "chain-120"],
+                     3: ["none", "chain60", "chain-120", "full"]}
+RECOUPLE_DEPTH = {"quick": 2, "thorough": 3}
+
+
+def recouple_sequences(n, tier):
+    """ALL sequences of coupling patterns of length 2..depth (first = pattern at build time)."""
+    out = []
+    for ln in range(2, RECOUPLE_DEPTH[tier] + 1):
+        out += [list(p) for p in itertools.product(RECOUPLE_PATTERNS[n], repeat=ln)]
+    return out
+
+
+def eval_recouple(case, tier):
+    seq = case["seq"]
+    viol, dev = {}, {}
+
+    def add(key, what, det=None):
+        if key not in viol:
+            viol[key] = (key, what, det)
+
+    def worst(name, x):
+        dev[name] = max(dev.get(name, 0.0), float(x))
+
+    qr = isolation.qr()
+    n = case["N"]
+    c0 = dict(case)
+    c0["coupling"] = seq[0]
+    b = build(spec_of(c0))
+    spectrum(b, raw=True)
+    ncalc = 1
+    fc = None
+    base = None
+    for pos, pat in enumerate(seq[1:]):
+        ck = dict(case)
+        ck["coupling"] = pat
+        spec = spec_of(ck)
+        # the user re-sets EVERY coupling of the same aggregate object and rebuilds it; the
+        # calculator object (created and bootstrapped before) is used again
+        with qr.energy_units("1/cm"):
+            for i in range(n):
+                for j in range(i + 1, n):
+                    b.system.set_resonance_coupling(i, j, float(spec["J"][i][j]))
+        isolation.reset_units()
+        b.system.rebuild()
+        isolation.reset_units()
+        b.spec = spec
+        objs = observed_objects(b)
+        snap = snapshot(objs)
+        hlib = snap["hamiltonian"].copy()
+        base = spectrum(b, raw=True)
+        ncalc += 1
+        bad, w = changed(objs, snap)
+        worst("recouple-purity", w)
+        if bad:
+            add("purity/after-calculate/recoupled/" + "+".join(sorted(bad)),
+                "calculate(raw=True) on the re-used calculator after couplings %s -> %s and "
+                "rebuild() changed %s (max rel. change %.3g)" % (seq[pos], pat, bad, w),
+                {"changed": bad, "step": pos + 1})
+        fc = fourier_clause(b, base, hlib, None, "aggregate+recoupled", add, worst)
+        if fc is None:
+            return {"nontrivial": False, "outcome": "bad-axis",
+                    "violations": list(viol.values()), "n": ncalc - 1}
+        fresh = spectrum(build(spec), raw=True)
+        ncalc += 1
+        ok, rel = same_spectrum(fresh, base, TOL_R)
+        worst("recouple-vs-fresh-object", rel)
+        if not ok:
+            add("recouple/spectrum-differs-from-fresh-calculator",
+                "same AbsSpectrumCalculator, couplings of its aggregate re-set %s -> %s + "
+                "rebuild(): the spectrum differs by %.3g (relative) from the spectrum of a freshly "
+                "built aggregate with these couplings and an unused calculator"
+                % (seq[pos], pat, rel), {"seq": seq, "step": pos + 1})
+    x, y = base
+    ipk = int(numpy.argmax(y))
+    return {"nontrivial": bool(seq[-1] != "none" and len(set(seq)) > 1 and fc["resolved"]),
+            "outcome": ["recouple", seq, n, round(float(y[ipk]), 6), ipk, fc["fourier"]],
+            "violations": list(viol.values()), "n": ncalc - 1,
+            "info": {"dev": dev, "cint": None, "grp": None,
+                     "fourier": "recouple-" + fc["fourier"], "case": case}}
+
+
+# ------------------------------------------------------------------------------------------
+# rotations that put a pair of molecules onto a lattice direction (dipole-dipole couplings)
+# ------------------------------------------------------------------------------------------
+def lattice_directions(tier):
+    """The 13 axes of the cube (3 edges, 6 face diagonals, 4 body diagonals); thorough: both
+    senses (26 directions)."""
+    out = []
+    for v in itertools.product((-1, 0, 1), repeat=3):
+        if v == (0, 0, 0):
+            continue
+        first = [c for c in v if c != 0][0]
+        if tier == "quick" and first < 0:
+            continue
+        out.append(list(v))
+    return out
+
+
+def rotation_onto(u, t):
+    """Proper rotation taking the direction of u to the direction of t (shortest turn)."""
+    u = numpy.asarray(u, dtype=float)
+    t = numpy.asarray(t, dtype=float)
+    u = u / numpy.sqrt(u.dot(u))
+    t = t / numpy.sqrt(t.dot(t))
+    ax = numpy.cross(u, t)
+    s, c = float(numpy.sqrt(ax.dot(ax))), float(u.dot(t))
+    if s < 1e-12:
+        if c > 0:
+            return numpy.eye(3)
+        e = numpy.eye(3)[int(numpy.argmin(numpy.abs(u)))]
+        return AR.rotation(numpy.cross(u, e), numpy.pi)
+    return AR.rotation(ax, float(numpy.arctan2(s, c)))
+
+
+def eval_pair_aligned(case, tier):
+    spec = spec_of(case)
+    viol, dev = {}, {}
+
+    def add(key, what, det=None):
+        if key not in viol:
+            viol[key] = (key, what, det)
+
+    def worst(name, x):
+        dev[name] = max(dev.get(name, 0.0), float(x))
+
+    n = spec["n"]
+    b = build(spec)
+    hlib = snapshot(observed_objects(b))["hamiltonian"]
+    base = spectrum(b, raw=True)
+    ncalc = 1
+    fc = fourier_clause(b, base, hlib, None, "aggregate+pair-aligned", add, worst)
+    if fc is None:
+        return {"nontrivial": False, "outcome": "bad-axis", "violations": list(viol.values()),
+                "n": 0}
+    for i in range(n):
+        for j in range(i + 1, n):
+            u = numpy.asarray(spec["pos"][j]) - numpy.asarray(spec["pos"][i])
+            for t in lattice_directions(tier):
+                rot = rotation_onto(u, t)
+                v = build(variant(spec, rot=rot))
+                sv = spectrum(v, raw=True)
+                ncalc += 1
+                ok, rel = same_spectrum(base, sv, TOL_R)
+                worst("rotation-pair-aligned", rel)
+                if not ok:
+                    add("rotation/pair-aligned/aggregate/dd",
+                        "spectrum changes by %.3g (relative) under the common rotation of dipoles "
+                        "and positions that puts the distance vector of molecules %d,%d along %s"
+                        % (rel, i, j, t), {"pair": [i, j], "direction": t,
+                                           "rotation": numpy.asarray(rot).tolist()})
+    x, y = base
+    ipk = int(numpy.argmax(y))
+    return {"nontrivial": bool(fc["resolved"]),
+            "outcome": ["pair-aligned", n, case["geom"], round(float(y[ipk]), 6), ipk,
+                        fc["fourier"]],
+            "violations": list(viol.values()), "n": ncalc - 1,
+            "info": {"dev": dev, "cint": None, "grp": None,
+                     "fourier": "pair-aligned-" + fc["fourier"], "case": case}}
+
+
+
+# ------------------------------------------------------------------------------------------
 # calculator histories: things done with ONE AbsSpectrumCalculator object
 # ------------------------------------------------------------------------------------------
 CALC_OPS = {"b": "bootstrap()",
@@ -1474,6 +1644,26 @@ def sections(tier):
                         "geom": _geoms(n, "quick")[:1], "bath": ["sitewise"],
                         "tensor": [False], "hist": hdyn, "axis": AXES_TD[tier][:1]})
     sec["calculator-history"] = chs
+    # ---- the aggregate changes under ONE calculator: N x ALL sequences of coupling patterns
+    # (length 2..depth) x bath; after every re-coupling + rebuild(): purity, Fourier clause,
+    # identity with a freshly built aggregate + unused calculator
+    rec = []
+    for n in (2, 3):
+        rec += product({"route": ["recouple"], "kind": ["aggregate"], "N": [n], "eset": ["wide"],
+                        "coupling": ["none"], "seq": recouple_sequences(n, tier),
+                        "geom": _geoms(n, "quick")[:1], "bath": ["same", "sitewise"],
+                        "tensor": [False], "axis": AXES_TD[tier][:1]})
+    sec["recouple"] = rec
+    # ---- dipole-dipole couplings: N x geometry x bath x (inside) ALL pairs x ALL lattice
+    # directions the pair's distance vector is rotated onto
+    pal = []
+    for n in (2, 3):
+        pal += product({"route": ["pair-aligned"], "kind": ["aggregate"], "N": [n],
+                        "eset": ["wide"], "coupling": ["dd"],
+                        "geom": _geoms(n, "quick")[:2 if quick else 3],
+                        "bath": ["same"] if quick else ["same", "sitewise"],
+                        "tensor": [False], "axis": AXES_TD[tier][:1]})
+    sec["rotation-pair-aligned"] = pal
     for lst in sec.values():
         for c in lst:
             c["Nt"], c["dt"] = int(c["axis"][0]), float(c["axis"][1])
